@@ -131,6 +131,7 @@ def hover (j : Json) : Json := Id.run do
   let gt := jget j "gt"
   let req := jnat j "req"
   let doc := journalOf (jget j "docj")
+  let lns := HL.Text.lines (jstr j "doct").toList
   let wsv : Option WsView := (resolvedOf (jget j "wsres")).map fun r => ⟨r, bs (jstr j "wsroot")⟩
   let dpath := bs (jstr j "dpath")
   let ws := workspaceResolvedFor wsv dpath
@@ -142,7 +143,7 @@ def hover (j : Json) : Json := Id.run do
     let p := match jget q "p" with
       | .arr a => (⟨asNat a[0]!, asNat a[1]!⟩ : LspPos)
       | _ => ⟨0, 0⟩
-    match Hover.hoverAt wsv res dpath doc p with
+    match Hover.hoverAt wsv res dpath doc lns p with
     | some h => figuresJ h
     | none => Json.null
   -- ground truth
